@@ -36,7 +36,11 @@ RULE = ('per function, inputs built from its grammar: documented words x per-let
         'output, plus a separate malformed/arbitrary-text stream over the character domain. A case is distinct by '
         '(function, value, settings, call form) and non-trivial when the implementation accepts it (recognised word, int-like, '
         'integer within bounds, length within active bounds, UUID) or when it comes from a near-miss/bound generator')
-RULE = RULE + RULE_EXTRA
+RULE = RULE + RULE_EXTRA + (' The public tables TRUE_STRINGS / FALSE_STRINGS are rebound between two calls (extended, '
+               'narrowed, swapped, emptied, overlapping, odd entries, lists): the functions must classify by the tables in force '
+               'and is_valid_boolstr must keep agreeing with strict bool_from_string on unpadded input. Digit strings of 4299..4302, '
+               '5000 and 10000 digits are probed whatever the interpreter limit is; under an ambient configuration the model cannot '
+               'speak about (another digit limit, str(bytes) under -bb) those cases are judged by the oracle only.')
 TRUSTED_BASE = [
     'Lean 4 kernel; axioms audited per theorem (subset of propext, Classical.choice, Quot.sound)',
     'hand-written model OsloModel/Scalars.lean, tied to strutils/uuidutils by this correspondence; the CPython '
@@ -239,6 +243,14 @@ def obj_of(val):
     raise ValueError('unknown value type %r' % (t,))
 
 
+def safe_str(obj):
+    """str(obj) as the default interpreter computes it; for bytes that is repr(obj) - asked for directly, because
+    str(bytes) is a BytesWarning (an error under python -bb) and this is harness code"""
+    if isinstance(obj, (bytes, bytearray)):
+        return repr(obj)
+    return str(obj)
+
+
 def field_of(val, obj):
     t = val['t']
     if t == 'str':
@@ -248,7 +260,7 @@ def field_of(val, obj):
     if t == 'bool':
         return 'b:%d' % obj
     # any other object: the runtime says what str() and int() do with it
-    text = str(obj)
+    text = safe_str(obj)
     try:
         r = 'ok=' + text_of_int(int(obj))
     except (TypeError, ValueError, OverflowError) as e:
@@ -404,6 +416,35 @@ def call_forms(case, rng, limit=None):
     return forms
 
 
+def words_field(words):
+    return ','.join(common.hexs(w) if w else '.' for w in words) if words else '-'
+
+
+class rebound_tables:
+    """The public module tables strutils.TRUE_STRINGS / FALSE_STRINGS rebound by a caller for the duration of one call
+    (saved and restored; only cases that are explicitly about this variation use it)."""
+
+    def __init__(self, tables):
+        self.tables = tables
+
+    def __enter__(self):
+        import whitebox
+        from oslo_utils import strutils
+        self.mod = strutils
+        if not hasattr(strutils, 'TRUE_STRINGS') or not hasattr(strutils, 'FALSE_STRINGS'):
+            raise whitebox.HarnessBlind('strutils: public tables TRUE_STRINGS / FALSE_STRINGS not found')
+        self.saved = (strutils.TRUE_STRINGS, strutils.FALSE_STRINGS)
+        if self.tables:
+            kind = list if self.tables.get('as') == 'list' else tuple
+            strutils.TRUE_STRINGS = kind(self.tables['true'])
+            strutils.FALSE_STRINGS = kind(self.tables['false'])
+        return self
+
+    def __exit__(self, *a):
+        self.mod.TRUE_STRINGS, self.mod.FALSE_STRINGS = self.saved
+        return False
+
+
 def case_line(case):
     fn = case['fn']
     if fn.startswith('prim/'):
@@ -415,6 +456,11 @@ def case_line(case):
         return req(p, common.hexs(case['s']))
     val = case['value']
     f = field_of(val, obj_of(val))
+    if case.get('tables') and fn in ('bool', 'boolstr', 'intbool'):
+        ts, fs = words_field(case['tables']['true']), words_field(case['tables']['false'])
+        if fn == 'bool':
+            return req('boolT', ts, fs, f, int(bool(case['strict'])))
+        return req(fn + 'T', ts, fs, f)
     if fn == 'bool':
         return req('bool', f, int(bool(case['strict'])))
     if fn in ('boolstr', 'intbool', 'intlike', 'uuid'):
@@ -479,7 +525,15 @@ def run_impl(case):
                 return common.hexs(r) if isinstance(r, str) else 'other:%r' % (r,)
             if p == 'str':
                 return common.hexs(str(int_of_text(case['n'])))
-        r = f(*args, **kwargs)
+        if case.get('tables'):
+            try:                      # a first call with the shipped tables: whatever the function caches, it caches now
+                f(*args, **kwargs)
+            except Exception:
+                pass
+            with rebound_tables(case['tables']):
+                r = f(*args, **kwargs)
+        else:
+            r = f(*args, **kwargs)
         if fn == 'bool':
             if r is SENTINEL:
                 return 'default'
@@ -826,6 +880,48 @@ def gen_call_forms(rng, quick):
     return out
 
 
+TABLE_VARIANTS = [
+    ('unchanged', DOC_TRUE, DOC_FALSE, None),
+    ('extended-true', DOC_TRUE + ['enabled', 'ja'], DOC_FALSE, None),
+    ('extended-false', DOC_TRUE, DOC_FALSE + ['disabled', 'nein'], None),
+    ('narrowed', ['true', 'on', 'yes', '1'], ['false', 'off', 'no', '0'], None),
+    ('swapped', DOC_FALSE, DOC_TRUE, None),
+    ('empty-true', [], DOC_FALSE, None),
+    ('both-empty', [], [], None),
+    ('overlap', DOC_TRUE + ['maybe'], DOC_FALSE + ['maybe', 'on'], None),
+    ('odd-entries', ['Yes', ' padded ', '', 'ok'], ['NO', 'no way', 'nope'], None),
+    ('as-list', DOC_TRUE + ['enabled'], ['false', 'off'], 'list'),
+]
+
+
+def gen_table_cases(rng, quick):
+    """The public tables strutils.TRUE_STRINGS / FALSE_STRINGS rebound by the caller between two calls: the functions
+    must classify by the tables in force at call time and keep agreeing with each other."""
+    out = []
+    for name, tw, fw, kind in TABLE_VARIANTS:
+        tables = {'true': list(tw), 'false': list(fw)}
+        if kind:
+            tables['as'] = kind
+        words = sorted(set(list(tw) + list(fw) + DOC_TRUE + DOC_FALSE + ['enabled', 'disabled', 'maybe', 'ok', 'nope']))
+        vals = []
+        for w in words:
+            vals += [w, w.upper(), recase(rng, w, 'mixed'), rng.choice(WS_CHARS) + w + rng.choice(WS_CHARS)]
+            if not quick or rng.random() < 0.3:
+                vals += [near_miss(rng, w, ASCII) if w else 'x', ws_run(rng, 33) + w, w + ws_run(rng, 40) + 'x']
+        vals += ['', ' ', 'Enabled ', 'yes no']
+        for t in vals:
+            v = vstr(t)
+            tag = 'tables/' + name
+            out.append(({'fn': 'bool', 'value': v, 'strict': False, 'tables': tables}, tag))
+            out.append(({'fn': 'bool', 'value': v, 'strict': True, 'tables': tables}, tag))
+            out.append(({'fn': 'boolstr', 'value': v, 'tables': tables}, tag))
+            out.append(({'fn': 'intbool', 'value': v, 'tables': tables}, tag))
+        for v in (V('bool', True), V('bool', False), vint(1), vint(0), V('none')):
+            out.append(({'fn': 'bool', 'value': v, 'strict': True, 'tables': tables}, 'tables/' + name))
+            out.append(({'fn': 'boolstr', 'value': v, 'tables': tables}, 'tables/' + name))
+    return out
+
+
 def gen_int_values(rng, centre):
     """values around an integer: int form, canonical str form, decorated str forms, floats"""
     out = []
@@ -841,19 +937,73 @@ def gen_int_values(rng, centre):
     return out
 
 
+DEFAULT_LIMIT = 4300       # CPython's default int<->str digit limit; lengths around it are probed whatever the limit is
+
+
 def limit_values():
+    """canonical and non-canonical digit strings / ints of 4299..4302, 5000 and 10000 digits (and around the interpreter's
+    own limit if that is another one).  With the default limit the unchanged code answers False / ValueError beyond
+    4300 digits (known finding C14-F2) and so does the model; with the limit lifted it accepts them."""
     lim = sys.get_int_max_str_digits()
+    lens = [DEFAULT_LIMIT - 1, DEFAULT_LIMIT, DEFAULT_LIMIT + 1, DEFAULT_LIMIT + 2, 5000, 10000]
+    if lim > 0 and lim != DEFAULT_LIMIT:
+        lens += [lim - 1, lim, lim + 1, lim + 2]
     out = []
-    if lim <= 0:
-        return out
-    for nd in (lim - 1, lim, lim + 1, lim + 2):
+    for nd in lens:
+        tag = '%+d' % (nd - DEFAULT_LIMIT)
         for lead in ('1', '9', '-1'):
             zeros = nd - len(lead.lstrip('-'))
-            out.append((V('str', lead, zeros=zeros), 'limit/str/%+d' % (nd - lim)))
-            out.append((V('int', lead, zeros=zeros), 'limit/int/%+d' % (nd - lim)))
-        out.append((vstr(' +' + '0' * (nd - 1) + '7 '), 'limit/str-zeros/%+d' % (nd - lim)))
-        out.append((vstr('1_' * (nd - 1) + '1'), 'limit/str-under/%+d' % (nd - lim)))
+            out.append((V('str', lead, zeros=zeros), 'limit/str/' + tag))
+            out.append((V('int', lead, zeros=zeros), 'limit/int/' + tag))
+        out.append((vstr(' +' + '0' * (nd - 1) + '7 '), 'limit/str-zeros/' + tag))
+        out.append((vstr('1_' * (nd - 1) + '1'), 'limit/str-under/' + tag))
+        out.append((vstr('7' * nd + ' '), 'limit/str-trail-ws/' + tag))
+        out.append((vstr('0' + '7' * (nd - 1)), 'limit/str-lead-zero/' + tag))
+        out.append((vstr('+' + '7' * nd), 'limit/str-plus/' + tag))
+        out.append((vstr('7' * nd + '.0'), 'limit/str-float/' + tag))
     return out
+
+
+def model_limit():
+    """the digit limit the built model has (the generated constant)"""
+    try:
+        m = re.search(r'def maxStrDigits : Nat := (\d+)', open(C14_gen.OUT).read())
+        return int(m.group(1))
+    except Exception:
+        return DEFAULT_LIMIT
+
+
+def digit_load(case):
+    """how many decimal digits int()/str() would have to convert for this case"""
+    if case['fn'] == 'prim/str':
+        return len(case['n'])
+    if case['fn'].startswith('prim/'):
+        return sum(1 for c in case['s'] if c.isdecimal())
+    v = case['value']
+    if v['t'] == 'int':
+        return len(v['v'].lstrip('-')) + v.get('zeros', 0)
+    if v['t'] == 'str':
+        return sum(1 for c in v['v'] if c.isdecimal()) + v.get('zeros', 0)
+    return 0
+
+
+def outside_configuration(ctx, case):
+    """cases the MODEL cannot speak about under the ambient configuration of this (child) run; the implementation-only
+    search still judges them with the oracle, which reads the configuration from the interpreter"""
+    amb = getattr(ctx, 'ambient', None)
+    if amb is None:
+        return None
+    # the model is built with the default int<->str digit limit (generated constant); when the interpreter runs with
+    # another limit, texts longer than the smaller of the two are converted by one side and refused by the other
+    lims = [x for x in (model_limit(), sys.get_int_max_str_digits()) if x > 0]
+    if model_limit() != sys.get_int_max_str_digits() and lims and digit_load(case) > min(lims):
+        return 'digit-limit'
+    # under python -bb str(bytes) raises BytesWarning inside the library (str(subject), str(val), str(value)): that is the
+    # configuration's doing; the model describes str(bytes) of the default interpreter
+    if sys.flags.bytes_warning >= 2 and 'value' in case and case['value']['t'] == 'bytes' \
+            and case['fn'] in ('bool', 'boolstr', 'intbool', 'intlike', 'valint'):
+        return 'bytes-warning'
+    return None
 
 
 def gen_intlike(rng, n, alphabet):
@@ -1083,6 +1233,8 @@ def gen_cases(ctx, alphabet):
     """All (case, tag) of one run."""
     rng = ctx.rng
     n = 3000 if ctx.quick else 100000
+    if getattr(ctx, 'ambient', None):     # children of the ambient sweep: a third of the random budget; every structured
+        n = n // 3                        # family (words, bounds, forms, tables, lengths, limits) is generated in full
     cases = []
     bools = gen_bool_values(rng, n, alphabet)
     for v, tag in bools:
@@ -1101,11 +1253,12 @@ def gen_cases(ctx, alphabet):
     for c in gen_prims(rng, n // 2, alphabet):
         cases.append((c, 'prim'))
     cases += gen_call_forms(rng, ctx.quick)
+    cases += gen_table_cases(rng, ctx.quick)
     return cases
 
 
 ACCEPT = {'bool': ('val:1', 'val:0'), 'boolstr': ('1',), 'intbool': ('1',), 'intlike': ('1',), 'uuid': ('1',)}
-NEAR_TAGS = ('form', 'bound-type', 'long', 'near', 'bound', 'len-at-bound', 'word', 'limit', 'one-bad-char', 'scattered', 'odd', 'len3', 'str/', 'fixed', 'confusable')
+NEAR_TAGS = ('tables', 'form', 'bound-type', 'long', 'near', 'bound', 'len-at-bound', 'word', 'limit', 'one-bad-char', 'scattered', 'odd', 'len3', 'str/', 'fixed', 'confusable')
 
 
 def is_nontrivial(case, tag, impl):
@@ -1133,6 +1286,14 @@ def correspondence(ctx):
                          'through is_uuid_like only')
         cases = [((public_view_of_fmtuuid(c), 'prim-via-public') if c['fn'] == 'prim/fmtuuid' else (c, t))
                  for c, t in cases]
+    kept = []
+    for c, t in cases:
+        why = outside_configuration(ctx, c)
+        if why:
+            ctx.count('corr/outside-configuration/' + why)
+        else:
+            kept.append((c, t))
+    cases = kept
     lines = [case_line(c) for c, _ in cases]
     replies = ctx.driver.ask_many(lines)
     out = []
@@ -1274,13 +1435,14 @@ def expected(case):
     if fn in ('bool', 'intbool', 'boolstr'):
         if fn != 'boolstr' and isinstance(obj, bool):
             return ('val:%d' % obj) if fn == 'bool' else '%d' % obj
-        text = obj if isinstance(obj, str) else (text_of_int(obj) if type(obj) is int else str(obj))
+        text = obj if isinstance(obj, str) else (text_of_int(obj) if type(obj) is int else safe_str(obj))
         key = (oracle_strip(text) if fn != 'boolstr' else text).lower()
+        tw, fw = (case['tables']['true'], case['tables']['false']) if case.get('tables') else (DOC_TRUE, DOC_FALSE)
         if fn == 'boolstr':
-            return '%d' % (key in DOC_TRUE + DOC_FALSE)
-        if key in DOC_TRUE:
+            return '%d' % (key in list(tw) + list(fw))
+        if key in tw:
             return 'val:1' if fn == 'bool' else '1'
-        if key in DOC_FALSE:
+        if key in fw:
             return 'val:0' if fn == 'bool' else '0'
         if fn == 'intbool':
             return '0'
@@ -1340,7 +1502,8 @@ def check_case(case):
         # when bool_from_string(s, strict=True) returns a boolean
         text = obj_of(case['value'])
         if oracle_strip(text) == text:
-            strict = run_impl({'fn': 'bool', 'value': case['value'], 'strict': True})
+            strict = run_impl(dict({'fn': 'bool', 'value': case['value'], 'strict': True},
+                                   **({'tables': case['tables']} if case.get('tables') else {})))
             if (got == '1') != strict.startswith('val:'):
                 return ('is_valid_boolstr(%s) gave %s but bool_from_string(..., strict=True) gave %s: they must agree on '
                         'unpadded input' % (short(case['value']), got, strict))
@@ -1425,6 +1588,8 @@ def search(ctx, seeds, full=False):
     todo += cases
     for case, tag in todo:
         if case['fn'].startswith('prim/'):
+            continue
+        if outside_configuration(ctx, case) == 'bytes-warning':
             continue
         ctx.evaluations += 1
         try:
